@@ -78,7 +78,11 @@ const (
 	stClosed
 )
 
-func model(init int) porcupine.Model {
+// faulty: the underlying stream's Close misbehaves (returns an error, is slow).
+// The property text fixes what ACCEPT may do after a Close call that found the
+// value open (never the stream), not what that Close call itself reports when
+// the stream's own Close failed: its result is then not judged.
+func model(init int, faulty bool) porcupine.Model {
 	return porcupine.Model{
 		Init: func() interface{} { return init },
 		Step: func(state, input, output interface{}) (bool, interface{}) {
@@ -95,7 +99,8 @@ func model(init int) porcupine.Model {
 			}
 			switch st {
 			case stOpen:
-				return o.Closed, stClosed
+				// the value is closed by this call whatever the stream's Close said
+				return o.Closed || faulty, stClosed
 			case stAccepted: // an accepted stream is never closed by the solicitation
 				return !o.Closed, stAccepted
 			default:
@@ -110,9 +115,13 @@ func model(init int) porcupine.Model {
 
 type histSpec struct {
 	ops   [][]opKind // per goroutine
-	mode  string     // "free", "yield", "gated"
+	mode  string     // "free", "yield", "gated", "closegate"
 	pre   int        // gated: index of the armed accept within goroutine 0
 	erred bool       // value constructed with an error
+	// fault: Close behaviour of the underlying stream (g10sol.Close* constants);
+	// remoteGone: the other end of the stream was closed before the history
+	fault      int
+	remoteGone bool
 }
 
 func (h histSpec) String() string {
@@ -120,6 +129,12 @@ func (h histSpec) String() string {
 	b.WriteString(h.mode)
 	if h.erred {
 		b.WriteString("/errored")
+	}
+	if h.fault != g10sol.CloseOK {
+		b.WriteString("/" + g10sol.CloseFaultNames[h.fault])
+	}
+	if h.remoteGone {
+		b.WriteString("/remote-end-closed-first")
 	}
 	for g, l := range h.ops {
 		fmt.Fprintf(&b, " g%d:", g)
@@ -147,6 +162,22 @@ func genSpec(rng *rand.Rand, mode string) histSpec {
 			k = opClose
 		}
 		h.ops[gi] = append(h.ops[gi], k)
+	}
+	if mode == "closegate" {
+		// some goroutine must close, and some other one should accept meanwhile
+		hasC, hasA := false, false
+		for _, l := range h.ops {
+			for _, k := range l {
+				hasC = hasC || k == opClose
+				hasA = hasA || k == opAccept
+			}
+		}
+		if !hasC {
+			h.ops[0][0] = opClose
+		}
+		if !hasA {
+			h.ops[1][0] = opAccept
+		}
 	}
 	if mode == "gated" {
 		// goroutine 0 needs an accept to pause in
@@ -189,7 +220,7 @@ type gateCtl struct {
 func TestCheck(t *testing.T) {
 	r := vf.Start(t, "C31", vf.Exploration)
 	defer r.Finish()
-	r.SetRule("Part 1: PRNG histories of 2-4 goroutines with <= 6 accept/close calls on ONE fresh SolicitMountedStream value wrapping a harness stream that counts Close calls; three schedule families: free-running from a barrier, yielding (Gosched) at the verif hook point inside AcceptMountedStream, and gate-controlled (one accept is parked at the hook point while all other goroutines run to completion, then released). Call/return are stamped from one atomic counter; porcupine decides linearizability against the model {open, accepted, closed}: accept: open->accepted returns the stream, accepted->(nil,true,nil), closed->error and no stream; close: open->closed returns true, accepted->false, closed->any. Also: a stream that was returned by an accept has Close count 0. Non-trivial = history containing both an accept and a close on >= 2 goroutines; distinct = distinct (spec, observed interleaving). Part 2: two-node harness (see C30) with several local directives of equal (protocol id, context) and different constraints; all values of a node are accepted / closed concurrently; per physical stream successful accepts <= 1 and an accepted stream has Close count 0. A block of REJECT scenarios (own batches): one node holds 2-3 requests with the same (protocol id, context) and different link-admitting constraints, the other node solicits the pair, and one of the matching resolvers rejects the value or goes away around the match, in seven patterns: every consumer accepts INSIDE the delivering AddValue call and then closes its siblings' bus instances (directive.Instance.Close, or Reference.Release + CloseIfUnreferenced) so that controllerbus answers the controller's next AddValue of the same match with ok=false; only one consumer does that; one request is registered with the controller directly (Controller.HandleDirective + Resolver.Resolve) with a harness directive.ResolverHandler that rejects every value, or has a hard cap of one value over two links; one bus request is closed by the harness at the moment the solicited stream is handed to its node's controller (synchronously, or from a free-running goroutine); static and dynamic (remote request last, after a quiescence). Oracle for all two-node scenarios: per physical stream at most one successful accept over all values and consumers of the node (accepts inside the delivery included), a stream that some accept returned has Close count 0 at its node's end at the end, and the Close count read when an accept returns a stream is 0 (a closed stream is never handed over). Non-trivial = scenario where at least one stream matches >= 2 local directives")
+	r.SetRule("Part 1: PRNG histories of 2-4 goroutines with <= 6 accept/close calls on ONE fresh SolicitMountedStream value wrapping a harness stream that counts Close calls; three schedule families: free-running from a barrier, yielding (Gosched) at the verif hook point inside AcceptMountedStream, and gate-controlled (one accept is parked at the hook point while all other goroutines run to completion, then released). Call/return are stamped from one atomic counter; porcupine decides linearizability against the model {open, accepted, closed}: accept: open->accepted returns the stream, accepted->(nil,true,nil), closed->error and no stream; close: open->closed returns true, accepted->false, closed->any. Four schedule families now: the three above plus CLOSE-GATED (one Close call of the value is parked inside the underlying stream's Close - a slow close - while the other goroutines run, then released). In half of the histories the underlying stream is FAULTY: its Close returns an error (always / on the first call only / on repeated calls only / iff the remote end was closed before, which the harness then does first) or yields the processor several times (slow, with and without error); the stream end is closed by the call whatever it returns. The model is unchanged except that the RESULT of a Close call that found the value open is not judged when the stream is faulty (the property text does not say what Close reports when the stream's own Close fails): the value is closed by that call and no later accept may return the stream. Also: a stream that was returned by an accept has Close count 0. Non-trivial = history containing both an accept and a close on >= 2 goroutines; distinct = distinct (spec, observed interleaving). Part 2: two-node harness (see C30) with several local directives of equal (protocol id, context) and different constraints; all values of a node are accepted / closed concurrently; per physical stream successful accepts <= 1 and an accepted stream has Close count 0. A block of REJECT scenarios (own batches): one node holds 2-3 requests with the same (protocol id, context) and different link-admitting constraints, the other node solicits the pair, and one of the matching resolvers rejects the value or goes away around the match, in seven patterns: every consumer accepts INSIDE the delivering AddValue call and then closes its siblings' bus instances (directive.Instance.Close, or Reference.Release + CloseIfUnreferenced) so that controllerbus answers the controller's next AddValue of the same match with ok=false; only one consumer does that; one request is registered with the controller directly (Controller.HandleDirective + Resolver.Resolve) with a harness directive.ResolverHandler that rejects every value, or has a hard cap of one value over two links; one bus request is closed by the harness at the moment the solicited stream is handed to its node's controller (synchronously, or from a free-running goroutine); static and dynamic (remote request last, after a quiescence). In every third generated scenario and every fourth reject scenario both ends of every solicited stream are FAULTY in the same six ways, and the accept / close plan of those scenarios has more closes, including Close calls that have RETURNED before the accept of the same value is called (one goroutine). Oracle for all two-node scenarios: per physical stream at most one successful accept over all values and consumers of the node (accepts inside the delivery included), a stream that some accept returned has Close count 0 at its node's end at the end, and the Close count read when an accept returns a stream is 0 (a closed stream is never handed over). Non-trivial = scenario where at least one stream matches >= 2 local directives")
 
 	part1(r)
 	g10sol.RunTwoNodeC31(r)
@@ -197,6 +228,7 @@ func TestCheck(t *testing.T) {
 
 func part1(r *vf.Run) {
 	rng := r.Rand("c31-hist")
+	frng := r.Rand("c31-hist-stream-faults")
 	n := r.N(2400, 100000)
 	var gc gateCtl
 	hits0 := verifhook.Hits(hookName)
@@ -214,18 +246,26 @@ func part1(r *vf.Run) {
 
 	for i := 0; i < n; i++ {
 		mode := "free"
-		switch i % 3 {
+		switch i % 4 {
 		case 1:
 			mode = "yield"
 		case 2:
 			mode = "gated"
+		case 3:
+			mode = "closegate"
 		}
-		if hookMissing && mode != "free" {
+		if hookMissing && (mode == "yield" || mode == "gated") {
 			mode = "free"
 		}
 		spec := genSpec(rng, mode)
 		if rng.IntN(25) == 0 {
 			spec.erred = true
+		}
+		// faulty underlying streams: Close returns an error (always / first call /
+		// repeated calls / when the remote end went away first) or is slow
+		if frng.IntN(2) == 0 {
+			spec.fault = 1 + frng.IntN(g10sol.NumCloseFaults-1)
+			spec.remoteGone = spec.fault == g10sol.CloseErrRemoteGone || frng.IntN(6) == 0
 		}
 		if i%64 == 0 {
 			r.Begin(fmt.Sprintf("history %d: %s", i, spec))
@@ -264,7 +304,15 @@ func part1(r *vf.Run) {
 
 // runHistory executes one history on a fresh value.
 func runHistory(spec histSpec, gc *gateCtl) (ops []porcupine.Operation, closes int, inconclusive string) {
-	a, _ := g10sol.NewFakeStreamPair(1)
+	a, bEnd := g10sol.NewFakeStreamPair(1)
+	a.Fault = spec.fault
+	if spec.remoteGone {
+		bEnd.Close()
+	}
+	if spec.mode == "closegate" {
+		a.CloseGate = make(chan struct{})
+		a.CloseEntered = make(chan struct{}, 1)
+	}
 	ms := &g10sol.FakeMountedStream{Strm: a, Proto: "solicit:test"}
 	var val link_solicit.SolicitMountedStream
 	if spec.erred {
@@ -338,10 +386,12 @@ func runHistory(spec histSpec, gc *gateCtl) (ops []porcupine.Operation, closes i
 		gc.armed.Store(false)
 	} else {
 		start := make(chan struct{})
+		var finished atomic.Int32
 		for g := range spec.ops {
 			wg.Add(1)
 			go func(g int) {
 				defer wg.Done()
+				defer finished.Add(1)
 				<-start
 				for _, k := range spec.ops[g] {
 					do(g, k)
@@ -349,7 +399,40 @@ func runHistory(spec histSpec, gc *gateCtl) (ops []porcupine.Operation, closes i
 			}(g)
 		}
 		close(start)
-		wg.Wait()
+		if spec.mode == "closegate" {
+			// One Close call of the value is parked INSIDE the underlying stream's
+			// Close (slow close). Let the other goroutines run until they have all
+			// finished or nothing moves any more (they wait for the value), then let
+			// the stream's Close return. Schedule shaping only: no verdict depends
+			// on how long this takes.
+			allDone := make(chan struct{})
+			go func() { wg.Wait(); close(allDone) }()
+			select {
+			case <-a.CloseEntered:
+				last, stable := clock.Load(), 0
+				for it := 0; it < 4000 && stable < 60 && int(finished.Load()) < len(spec.ops)-1; it++ {
+					if it < 20 {
+						runtime.Gosched()
+					} else {
+						time.Sleep(20 * time.Microsecond)
+					}
+					if c := clock.Load(); c != last {
+						last, stable = c, 0
+					} else {
+						stable++
+					}
+				}
+			case <-allDone:
+			case <-time.After(30 * time.Second):
+				close(a.CloseGate)
+				<-allDone
+				return nil, 0, "watchdog: no Close reached the stream and the history did not finish"
+			}
+			close(a.CloseGate)
+			<-allDone
+		} else {
+			wg.Wait()
+		}
 	}
 	return ops, a.Closes(), ""
 }
@@ -416,8 +499,15 @@ func evalHistory(r *vf.Run, spec histSpec, ops []porcupine.Operation, closes int
 	if spec.erred {
 		init = stClosed
 	}
-	res, _ := porcupine.CheckOperationsVerbose(model(init), ops, 20*time.Second)
-	wit := map[string]any{"spec": spec.String(), "observed_call_return_order": inter, "stream_close_calls": closes}
+	faulty := spec.fault != g10sol.CloseOK
+	if faulty {
+		r.Count("histories_with_faulty_stream_"+g10sol.CloseFaultNames[spec.fault], 1)
+		if nClose > closedTrue {
+			r.Count("close_calls_returning_false_on_faulty_stream", nClose-closedTrue)
+		}
+	}
+	res, _ := porcupine.CheckOperationsVerbose(model(init, faulty), ops, 20*time.Second)
+	wit := map[string]any{"spec": spec.String(), "observed_call_return_order": inter, "stream_close_calls": closes, "underlying_stream_close_behaviour": g10sol.CloseFaultNames[spec.fault]}
 	switch res {
 	case porcupine.Unknown:
 		r.Inconclusive("porcupine timed out :: " + spec.String())
@@ -430,6 +520,8 @@ func evalHistory(r *vf.Run, spec histSpec, ops []porcupine.Operation, closes int
 			cls = "stream-returned-although-closed"
 		case closedTrue > 1 && streams == 0:
 			cls = "close-results"
+		case streams == 1 && nClose > 0 && closes > 0 && faulty:
+			cls = "stream-returned-after-close-call/stream-close-failed"
 		}
 		r.Violation("history/not-linearizable/"+cls,
 			"concurrent accept/close calls on one solicitation value have no sequential explanation: a closed value returned the stream to an accepting caller, or a stream got two owners",
